@@ -599,7 +599,7 @@ func (fx *fnExec) mapGet(st *State, m Term, mt types.Type, k SV) (Term, SV) {
 	val := fx.build(et, func(l leaf) Term {
 		vh := fx.heap(st, vp+l.suffix, fx.mapValLeafSort(ks, l))
 		t := tSel(tSel(vh, m), kt)
-		if st == fx.st {
+		if st == fx.st && !strings.Contains(t.S, "$q") {
 			fx.rangeFact(t, l)
 		}
 		return t
